@@ -6,6 +6,7 @@ import (
 	"fmt"
 	"runtime/debug"
 	"strings"
+	"time"
 
 	"github.com/cosmos/iavl"
 
@@ -218,6 +219,8 @@ type faultRun struct {
 	res   string
 	err   error
 	panic string
+	hang  string // the operation never returned: stack of the blocked caller (deadlock decided from the goroutine dump)
+	slow  string // the operation did not return within the bound and no deadlock could be shown (inconclusive)
 	fired []seam.Fired
 	store *seam.MemStore
 	tree  *iavl.MutableTree // the handle the operation ran on (faults disarmed afterwards)
@@ -261,7 +264,25 @@ func runFaulted(base *seam.MemStore, cfg v1x.Config, op *fop, n int, mask int, p
 				}
 			}
 		}()
-		fr.res, fr.err = op.run(t)
+		// (an operation that never returns after the fault is decided from the goroutine dump)
+		done, deadlocked, ev := fw.Bounded(60*time.Second, "github.com/cosmos/iavl", func() {
+			defer func() {
+				if r := recover(); r != nil {
+					fr.panic = fmt.Sprintf("%v\n%s", r, firstIavlFrames(string(debug.Stack())))
+					if site := fw.PanicSite(string(debug.Stack())); site != "" {
+						fr.panic = site + ": " + fr.panic
+					}
+				}
+			}()
+			fr.res, fr.err = op.run(t)
+		})
+		if !done {
+			if deadlocked {
+				fr.hang = ev
+			} else {
+				fr.slow = ev
+			}
+		}
 	}()
 	calls = w.Seq()
 	fr.fired = w.Disarm()
@@ -320,6 +341,14 @@ func probeOpMask(c *fw.Ctx, base *seam.MemStore, cfg v1x.Config, op *fop, univer
 		c.Obs("faults_injected", 1)
 		c.Obs("faults_"+kind, 1)
 		where := fmt.Sprintf("%s with %s failing (%s %d of %d storage calls) {%s} after: %s", op.name, kind, label, idx, n, cfg, hist)
+		if fr.slow != "" {
+			c.Res.Inconcl = where + ": " + fr.slow
+			return
+		}
+		if fr.hang != "" {
+			c.Violate(idx, "fault|"+op.name+"|"+kind+"|hang", "%s: the operation never returned: the calling goroutine is blocked inside iavl and no other goroutine is left inside iavl that could wake it:\n%s", where, fr.hang)
+			return
+		}
 		if fr.panic != "" {
 			site := strings.SplitN(fr.panic, ":", 2)[0]
 			c.Violate(idx, "fault|"+op.name+"|"+kind+"|panic|"+site, "%s: panic %s", where, fr.panic)
@@ -423,7 +452,7 @@ func init() {
 		Cases:       func(tier string) int { return tierN(tier, 160, 5000) },
 		CaseTimeout: 300e9,
 		Rule: "case = one history (10-36 ops; 1-8 keys; cache 0/3; fast index on/off; flush threshold 150..default). At up to 3 points of the history every public operation with an error result is first run fault-free on a fresh handle over a clone of the store with the storage wrapper numbering its storage calls, then re-run once per call index (all indices up to 100 per operation, evenly sampled beyond) with exactly that call failing (Get, Has, iterator creation, iterator step, batch Set/Delete/Write), plus 2 random multi-fault runs (p=0.08). " +
-			"Read operations: Get, Has, GetWithIndex, GetByIndex, GetVersioned, GetImmutable+Get/GetWithIndex, GetProof, GetVersionedProof, Iterate and Iterator (mutable and immutable, both directions), Export, TraverseStateChanges, LoadVersion, GetLatestVersion. Write operations: SaveVersion, DeleteVersionsTo, LoadVersionForOverwriting, Import (incl. one >10000-node import per 32 cases, for which every batch write is failed once). " +
+			"Read operations: Get, Has, GetWithIndex, GetByIndex, GetVersioned, GetImmutable+Get/GetWithIndex, GetProof, GetVersionedProof, Iterate and Iterator (mutable and immutable, both directions), Export, TraverseStateChanges, LoadVersion, GetLatestVersion. Write operations: SaveVersion, DeleteVersionsTo, LoadVersionForOverwriting, Import (incl. one >20000-node import - three background batches - per 33 cases, for which every batch write is failed once). " +
 			"Oracle: an injected fault must end in an error, or in exactly the fault-free result (fallback paths are fine); a panic is a violation; a write operation during which a write call failed must not return success; after a faulted write operation a fresh tree on the store left behind must show the state before or after (C05 oracle: version set, every version readable on all paths), and exactly the new state if success was reported. " +
 			"evaluations = histories; faults_injected counts the faulted executions; distinct = hash(config, ops); non-trivial = >=200 faults injected in the case incl. >=1 write operation.",
 		Assumptions: []string{"faults are injected at the corestore interface (the seam the property is stated on); a failed batch Write applies nothing", "operations without an error result (IterateRange, Hash, VersionExists, AvailableVersions) are outside the statement"},
@@ -513,13 +542,13 @@ func init() {
 			// import under faults
 			if !e.Dead && e.M.Latest > 0 && len(c.Res.Violations) == 0 {
 				v := e.M.Latest
-				big := c.Index%32 == 8
+				big := c.Index%33 == 8 // (33 is coprime to the worker count: the expensive cases spread over all shards)
 				src := e
 				if big {
 					be, err := v1x.NewEnv(c, v1x.Config{Backend: "mem", Fast: false})
 					if err == nil {
 						defer be.Close()
-						for i := 0; i < 5100; i++ {
+						for i := 0; i < 10100; i++ {
 							be.Apply(v1x.Op{Kind: "set", K: []byte(fmt.Sprintf("big%05d", i)), V: []byte{1}}, false)
 						}
 						be.Apply(v1x.Op{Kind: "save"}, false)
